@@ -507,8 +507,15 @@ def replay(ctx, data):
     spec = rep.load_spec()
     before = len(ctx.violations)
     report_correspondence(ctx, spec, [(inp.get('name', 'replay'), inp['input'])], True)
-    mine = [v for v in ctx.violations[before:] if v.key == data.get('key')] or ctx.violations[before:]
-    for v in mine[:5]:
-        print(f'{v.kind}: {v.what}\n  specified (Coq model): {v.expected!r}\n  report shows:          {v.observed!r}')
-    print('property', 'VIOLATED' if mine else 'holds', 'on this input')
-    return 1 if mine else 0
+    found = ctx.violations[before:]
+    mine = [v for v in found if v.key == data.get('key')]
+    findings = fw.load_findings()
+    others = [v for v in found if v.key != data.get('key') and fw.match_finding(findings, ctx.pid, v.key) is None]
+    for v in (mine + others)[:5]:
+        print(f'{v.kind} [{v.key}]: {v.what}\n  specified (formatted by the Coq model): {v.expected!r}\n  report shows: {v.observed!r}')
+    known = sorted({v.key for v in found} - {v.key for v in mine + others})
+    if known:
+        print(f'(known findings also present on this input: {known[:6]}{" ..." if len(known) > 6 else ""})')
+    print('property', 'VIOLATED' if mine or others else 'holds', f'on this input (replayed key {data.get("key")!r}'
+          f'{" reproduced" if mine else " not reproduced"})')
+    return 1 if mine or others else 0
